@@ -167,6 +167,19 @@ Definition prog_ok (en : env) (p : prog) : bool :=
   | None => false
   end.
 
+(* mask leaves occur only on the value side of an `Into` (i.e. the mask is cast before any arithmetic) *)
+Fixpoint mask_guarded (e : expr) : bool :=
+  match e with
+  | Leaf LMask => false
+  | Leaf _ | Var _ => true
+  | Op a b | Div a b => mask_guarded a && mask_guarded b
+  | ToFloat a | RealOf a => mask_guarded a
+  | Into tg _ => mask_guarded tg
+  end.
+Definition block_guarded (b : list stmt) : bool := forallb (fun s => mask_guarded (snd s)) b.
+Definition prog_guarded (p : prog) : bool :=
+  block_guarded (p_init p) && block_guarded (p_body p) && forallb (fun o => mask_guarded (snd o)) (p_outs p).
+
 (* ------------------------------------------------------------------ skeleton vocabulary *)
 Definition In_ := Leaf LIn.
 Definition Mask := Leaf LMask.
@@ -243,6 +256,10 @@ Definition vWl := 12. (* line search: previous weights *)
 Definition vS := 13.  (* sparse component / second auxiliary *)
 
 Definition when {A} (b : bool) (l : list A) : list A := if b then l else [].
+(* the caller's mask as the entry points use it.  mc = true: the repaired code, which brings the mask into the data's
+   context once (`mask = tl.tensor(mask, **tl.context(tensor))` at the top of parafac / non_negative_parafac /
+   partial_tucker / svd_interface, as robust_pca always did); mc = false: the mask is used as passed in. *)
+Definition mask_leaf (mc : bool) : expr := if mc then Into In_ Mask else Mask.
 Definition T_ := Var vT. Definition M_ := Var vM. Definition W_ := Var vW. Definition F_ := Var vF.
 Definition N_ := Var vN. Definition C_ := Var vC. Definition X_ := Var vX. Definition Y_ := Var vY. Definition Z_ := Var vZ.
 Definition U_ := Var vU.
@@ -268,8 +285,8 @@ Definition error_calc_stmts (masked sparsity : bool) (mttkrp : expr) : list stmt
   else if sparsity then [(vE, norm (Op (Op T_ low) (Op (ctx_of T_) (Op T_ low))))]
   else [(vE, ToFloat (RealOf (Op (Op (Op N_ PyI) (Op (norm low) PyI)) (Op PyI (Op (Op mttkrp F_) W_)))))].
 
-Definition cp_init_stmts (c : cfg) (nonneg : bool) : list stmt :=
-  [(vT, In_)] ++ when (c_mask c) [(vM, Mask)] ++
+Definition cp_init_stmts (mc : bool) (c : cfg) (nonneg : bool) : list stmt :=
+  [(vT, In_)] ++ when (c_mask c) [(vM, mask_leaf mc)] ++
   match c_init c with
   | IRandom => [(vF, ctx); (vW, ctx)]                      (* random_cp(..., **tl.context(tensor)) *)
   | ISvd => svd_stmts T_ (c_mask c) ++ [(vF, Into U_ (Op U_ (RealOf U_))); (vW, ctx_of F_)]
@@ -280,12 +297,12 @@ Definition cp_init_stmts (c : cfg) (nonneg : bool) : list stmt :=
   [(vN, norm T_)].
 
 (* parafac (_cp.py) *)
-Definition parafac_prog (c : cfg) : prog :=
+Definition parafac_prog (mc : bool) (c : cfg) : prog :=
   let mttkrp := Op T_ (Op W_ F_) in
   let idreg := if c_l2reg c then Op ctx PyF else PyI in
   let pinv := Op3 W_ (Into (Op ctx (Op F_ F_)) idreg) W_ in
   mkprog
-    (cp_init_stmts c false ++ [(vE, N_)])
+    (cp_init_stmts mc c false ++ [(vE, N_)])
     (when (c_linesearch c) [(vFl, F_); (vWl, W_)] ++
      [(vF, Op pinv mttkrp)] ++
      (if c_errors c then error_calc_stmts (c_mask c) (c_sparsity c) mttkrp
@@ -299,10 +316,10 @@ Definition parafac_prog (c : cfg) : prog :=
      when (c_sparsity c) [("sparse", Op (ctx_of T_) (Op T_ (Op W_ F_)))]).
 
 (* non_negative_parafac (_nn_cp.py): multiplicative updates *)
-Definition nn_parafac_prog (c : cfg) : prog :=
+Definition nn_parafac_prog (mc : bool) (c : cfg) : prog :=
   let mttkrp := Op T_ (Op W_ F_) in
   mkprog
-    (cp_init_stmts c true ++ [(vE, N_)])
+    (cp_init_stmts mc c true ++ [(vE, N_)])
     (when (c_mask c) [(vT, Op (Op T_ M_) (Op3 W_ F_ (Op PyI M_)))] ++
      [(vF, Div (Op F_ (Op mttkrp PyF)) (Op (Op F_ (Op3 W_ (Op F_ F_) W_)) PyF))] ++
      when (c_normalize c) cp_normalize_stmts ++
@@ -317,11 +334,11 @@ Definition hals_nnls_stmts (UtM UtU : expr) : list stmt :=
 Definition hals_nnls_cold (UtM UtU : expr) : list stmt :=
   [(vX, Op UtU UtM); (vX, Op X_ PyI); (vX, Op X_ (Div (Op UtM X_) (Op UtU (Op X_ X_))))].
 
-Definition nn_parafac_hals_prog (c : cfg) : prog :=
+Definition nn_parafac_hals_prog (mc : bool) (c : cfg) : prog :=
   let mttkrp := Op T_ (Op W_ F_) in
   let pinv := Op3 W_ (Op ctx (Op F_ F_)) W_ in
   mkprog
-    (cp_init_stmts c true ++ [(vE, N_)])
+    (cp_init_stmts mc c true ++ [(vE, N_)])
     ([(vX, F_)] ++ hals_nnls_stmts mttkrp pinv ++ [(vF, X_)] ++
      when (c_normalize c) cp_normalize_stmts ++
      [(vE, Div (ToFloat (RealOf (Op (Op (Op N_ PyI) (Op (norm (Op W_ F_)) PyI)) (Op PyI (Op mttkrp F_))))) N_)])
@@ -354,16 +371,16 @@ Definition constrained_prog (c : cfg) : prog :=
     ([("weights", W_); ("factors", F_)] ++ when (c_errors c) [("errors", Var vE)]).
 
 (* partial_tucker / tucker (_tucker.py) *)
-Definition tucker_init_stmts (c : cfg) (nonneg : bool) : list stmt :=
-  [(vT, In_)] ++ when (c_mask c) [(vM, Mask)] ++
+Definition tucker_init_stmts (mc : bool) (c : cfg) (nonneg : bool) : list stmt :=
+  [(vT, In_)] ++ when (c_mask c) [(vM, mask_leaf mc)] ++
   match c_init c with
   | ISvd => svd_stmts T_ (c_mask c) ++ [(vF, U_); (vC, Op T_ F_)]
   | IRandom => [(vC, Into In_ (Op bare PyF)); (vF, Into In_ bare)]   (* tl.tensor(rng.random_sample(...) + 0.01, **context) *)
   | IUser => [(vC, In_); (vF, In_)]
   end ++ when nonneg [(vF, RealOf F_); (vC, RealOf C_)] ++ [(vN, norm T_)].
-Definition tucker_prog (c : cfg) (slot_core slot_factors : string) : prog :=
+Definition tucker_prog (mc : bool) (c : cfg) (slot_core slot_factors : string) : prog :=
   mkprog
-    (tucker_init_stmts c false ++ [(vE, N_)])
+    (tucker_init_stmts mc c false ++ [(vE, N_)])
     (when (c_mask c) [(vT, Op (Op T_ M_) (Op (Op C_ F_) (Op PyI M_)))] ++
      [(vF, Op T_ F_);                              (* left singular vectors of unfold(multi_mode_dot(tensor, factors, skip)) *)
       (vC, Op T_ F_);
@@ -371,9 +388,9 @@ Definition tucker_prog (c : cfg) (slot_core slot_factors : string) : prog :=
     ([(slot_core, C_); (slot_factors, F_)] ++ when (c_errors c) [("errors", Var vE)]).
 
 (* non_negative_tucker (_tucker.py): multiplicative updates with epsilon clipping *)
-Definition nn_tucker_prog (c : cfg) : prog :=
+Definition nn_tucker_prog (mc : bool) (c : cfg) : prog :=
   mkprog
-    (tucker_init_stmts c true ++ [(vE, N_)])
+    (tucker_init_stmts mc c true ++ [(vE, N_)])
     ([(vF, Div (Op F_ (Op (Op T_ (Op C_ F_)) PyF)) (Op (Op F_ (Op (Op C_ F_) (Op C_ F_))) PyF));
       (vC, Div (Op C_ (Op (Op T_ F_) PyF)) (Op (Op C_ (Op F_ F_)) PyF));
       (vE, Div (norm (Op T_ (Op C_ F_))) N_)])
@@ -388,18 +405,21 @@ Definition fista_stmts (UtM UtU : expr) (user_lr : bool) : list stmt :=
    (vX, Z_)].
 
 (* active_set_nnls (solvers/nnls.py): x_vec in vX, support_vec in vY *)
-Definition active_set_stmts (Utm UtU : expr) (fallback : bool) : list stmt :=
-  when fallback [(vX, bare);                       (* except: x_vec = tl.zeros(tl.shape(UtU)[1])   -- no context *)
+Definition active_set_stmts_gen (restart : expr) (Utm UtU : expr) (fallback : bool) : list stmt :=
+  when fallback [(vX, restart);                    (* except: x_vec = tl.zeros(tl.shape(UtU)[1], ...) *)
                  (vY, ctx_of X_)] ++
   [(vY, Into Y_ (Op UtU Utm));                     (* index_update(support_vec, i, passive_solution[...]) *)
    (vX, Op X_ (Op (Div X_ (Op X_ Y_)) (Op Y_ X_)));(* x_vec + alpha*(support_vec - x_vec) *)
    (vX, Op Y_ PyI)].                               (* clip(support_vec, a_min=0) *)
+(* since the repair c906acd the fallback allocates with **tl.context(UtU); before it the allocation was context-less *)
+Definition active_set_stmts (Utm UtU : expr) := active_set_stmts_gen (ctx_of UtU) Utm UtU.
+Definition active_set_stmts_before_c906acd := active_set_stmts_gen bare.
 
 (* non_negative_tucker_hals: factors by hals_nnls, core by fista or active_set *)
-Definition nn_tucker_hals_prog (c : cfg) : prog :=
+Definition nn_tucker_hals_prog (mc : bool) (c : cfg) : prog :=
   let UtU := Op F_ F_ in
   mkprog
-    (tucker_init_stmts c true ++ [(vE, N_)])
+    (tucker_init_stmts mc c true ++ [(vE, N_)])
     ([(vX, F_)] ++ hals_nnls_stmts (Op (Op C_ F_) T_) (Op (Op C_ F_) (Op C_ F_)) ++ [(vF, X_)] ++
      when (c_normalize c) [(vF, Div F_ (Op (ctx_of F_) (norm F_)))] ++
      (if c_alt c   (* algorithm = 'active_set' *)
@@ -434,6 +454,9 @@ Definition fista_prog (c : cfg) : prog :=
 Definition active_set_prog (c : cfg) : prog :=
   mkprog ([(vT, In_); (vX, if c_warm c then In_ else ctx_of T_); (vY, ctx_of X_)])
          (active_set_stmts T_ T_ (c_fallback c)) [("out0", X_)].
+Definition active_set_prog_before_c906acd (c : cfg) : prog :=
+  mkprog ([(vT, In_); (vX, if c_warm c then In_ else ctx_of T_); (vY, ctx_of X_)])
+         (active_set_stmts_before_c906acd T_ T_ (c_fallback c)) [("out0", X_)].
 Definition admm_prog (c : cfg) : prog :=
   match c_prox c with
   | PNone => mkprog [(vT, In_); (vX, In_); (vY, In_);   (* n_const=None: returns inside the first sweep *)
@@ -446,8 +469,8 @@ Definition admm_prog (c : cfg) : prog :=
 
 (* svd_interface (tenalg/svd.py) incl. svd_flip (signs: tl.tensor(..., **context(U)), tl.ones(n, ctx V)) and
    make_svd_non_negative (eps(dtype), tl.ones(n, ctx W) * avg) *)
-Definition svd_prog (c : cfg) : prog :=
-  mkprog ([(vT, In_)] ++ when (c_mask c) [(vM, Mask)] ++ svd_stmts T_ (c_mask c) ++
+Definition svd_prog (mc : bool) (c : cfg) : prog :=
+  mkprog ([(vT, In_)] ++ when (c_mask c) [(vM, mask_leaf mc)] ++ svd_stmts T_ (c_mask c) ++
           [(vU, Op U_ (Op (ctx_of U_) (ctx_of U_)))] ++
           when (c_alt c) (* non_negative *) [(vU, Op (RealOf U_) (Op (Op (ctx_of U_) (Div U_ PyI)) PyF))])
          [] [("out0", U_); ("out1", RealOf U_); ("out2", U_)].
@@ -461,23 +484,23 @@ Definition cp_normalize_prog (c : cfg) : prog :=
 Definition shallow (c : cfg) (e : expr) : prog := mkprog [(vT, In_)] [] [("*", e)].
 Definition pure_prog (c : cfg) : prog := shallow c (Op T_ (Op T_ ctx)).
 
-Definition skeleton (c : cfg) : prog :=
+Definition skeleton_v (mc : bool) (c : cfg) : prog :=
   match c_fam c with
-  | FParafac => parafac_prog c
-  | FNNParafac => nn_parafac_prog c
-  | FNNParafacHals => nn_parafac_hals_prog c
+  | FParafac => parafac_prog mc c
+  | FNNParafac => nn_parafac_prog mc c
+  | FNNParafacHals => nn_parafac_hals_prog mc c
   | FConstrained => constrained_prog c
-  | FTucker => tucker_prog c "core" "factors"
-  | FPartialTucker => tucker_prog c "out0" "out0"
-  | FNNTucker => nn_tucker_prog c
-  | FNNTuckerHals => nn_tucker_hals_prog c
+  | FTucker => tucker_prog mc c "core" "factors"
+  | FPartialTucker => tucker_prog mc c "out0" "out0"
+  | FNNTucker => nn_tucker_prog mc c
+  | FNNTuckerHals => nn_tucker_hals_prog mc c
   | FRobustPca => robust_pca_prog c
   | FProx => prox_prog c
   | FHalsNnls => hals_nnls_prog c
   | FFista => fista_prog c
   | FActiveSet => active_set_prog c
   | FAdmm => admm_prog c
-  | FSvd => svd_prog c
+  | FSvd => svd_prog mc c
   | FCpNormalize => cp_normalize_prog c
   | FRandom => shallow c ctx                        (* random_*(..., **context): tl.tensor(rng..., **context) *)
   | FLeverage => shallow c (Leaf (LConst F64))      (* documented: tl.tensor(..., dtype=tl.float64) *)
@@ -487,6 +510,9 @@ Definition skeleton (c : cfg) : prog :=
   | FFlipSign => mkprog [(vT, In_)] [] [("weights", RealOf T_); ("factors", Op T_ (ctx_of T_))]  (* weights = abs(weights) *)
   | _ => pure_prog c
   end.
+(* the variant of the code the correspondence is run against *)
+Definition mask_cast_now : bool := false.
+Definition skeleton (c : cfg) : prog := skeleton_v mask_cast_now c.
 
 (* the precision-relevant outputs of a skeleton: everything except integer index outputs and the documented
    float64 leverage scores *)
